@@ -93,8 +93,9 @@ struct World {
    ReflectServer * srv; int N, nextId, nextCn; bool serverGone;
    std::map<int, SessInfo> ss; std::map<int, FacInfo> fs; std::map<int, Conn> cs; std::map<int, int> fd2cn;
    Arm arm; J ev;                                      // callbacks observed during the current call
-   ConstSocketRef upSock, downSock; uint16 upPort, downPort; int pendingTcp;   // the harness's listener ("up") and a bound, non-listening socket ("down")
+   ConstSocketRef upSock, downSock, holeSock; uint16 upPort, downPort, holePort; int pendingTcp; std::vector<ConstSocketRef> holeFill;   // the harness's listener ("up") and a bound, non-listening socket ("down")
    int acceptCn;                                       // > 0 while a factory is creating the session for pending connection acceptCn
+   int nextFd;                                         // every socket handed to the server gets a descriptor NUMBER never used before in this world (see Uniq())
    int64 clockOfs; std::vector<std::string> viol, drift; unsigned long calls;
    World(int n);
    ~World();
@@ -109,6 +110,19 @@ struct World {
    int  EofState(Conn & c);
 };
 static World * W = NULL;
+
+// ReflectServer::HandleEvents() asks the multiplexer about a socket by its descriptor NUMBER; a socket created in the middle of an iteration that gets the
+// number of one closed earlier in the same iteration would inherit that one's answer (a matter of the kernel's numbering, outside the specification: see the
+// check's assumptions).  The harness therefore gives every server-side socket a number that was never used before: a duplicate of the descriptor (same open
+// socket, same non-blocking flag, a connect in progress goes on).
+static ConstSocketRef Uniq(const ConstSocketRef & s)
+{
+   if ((s.GetFileDescriptor() < 0)||(getenv("LIFE_NO_UNIQ"))) return s;
+   const int fd = fcntl(s.GetFileDescriptor(), F_DUPFD, W->nextFd);
+   if (fd < 0) {fprintf(stderr, "F_DUPFD failed (errno %d)\n", errno); exit(10);}
+   W->nextFd = fd+1;
+   return GetConstSocketRefFromPool(fd);
+}
 
 class LSession : public AbstractReflectSession
 {
@@ -199,7 +213,7 @@ private:
    int _id;
 };
 
-World :: World(int n) : srv(new ReflectServer), N(n), nextId(1), nextCn(1), serverGone(false), upPort(0), downPort(0), pendingTcp(0), acceptCn(0), clockOfs(0), calls(0)
+World :: World(int n) : srv(new ReflectServer), N(n), nextId(1), nextCn(1), serverGone(false), upPort(0), downPort(0), holePort(0), pendingTcp(0), acceptCn(0), nextFd(300), clockOfs(0), calls(0)
 {
    srv->SetDoLogging(false); ev = J::Arr();
    SetPerProcessRunTime64Offset(0);
@@ -251,30 +265,34 @@ ConstSocketRef LSession :: CreateDefaultSocket()
    W->Callback(this, "Sock", _dsock ? 1 : 0);
    if (!_dsock) return ConstSocketRef();
    ConstSocketRef a, b; if (CreateConnectedSocketPair(a, b, false).IsError()) {fprintf(stderr, "socketpair failed\n"); exit(10);}
+   a = Uniq(a);
    Conn & c = W->cs[W->nextCn]; c.cn = W->nextCn++; c.peer = b; c.havePeer = true; c.srvFd = a.GetFileDescriptor(); c.awaitingIo = true; W->fd2cn[c.srvFd] = c.cn;
    return a;
 }
 
-DataIORef LSession :: CreateDataIO(const ConstSocketRef & s)
+DataIORef LSession :: CreateDataIO(const ConstSocketRef & s0)
 {
    W->Callback(this, "Io", 0);
-   const int fd = s.GetFileDescriptor();
-   if (fd >= 0)
+   if (s0.GetFileDescriptor() < 0) return AbstractReflectSession::CreateDataIO(s0);
+   std::map<int, int>::iterator it = W->fd2cn.find(s0.GetFileDescriptor());
+   if ((it != W->fd2cn.end())&&(W->cs[it->second].srvFd == s0.GetFileDescriptor())&&(W->cs[it->second].awaitingIo))
    {
-      std::map<int, int>::iterator it = W->fd2cn.find(fd);
-      const bool known = ((it != W->fd2cn.end())&&(W->cs[it->second].srvFd == fd)&&(W->cs[it->second].awaitingIo));   // a socket pair the harness made (AddSock, CreateDefaultSocket)
-      if (known) W->cs[it->second].awaitingIo = false;
-      else if (W->acceptCn > 0) {Conn & c = W->cs[W->acceptCn]; c.srvFd = fd; W->fd2cn[fd] = c.cn; W->acceptCn = 0;}   // the connection a peer made to a factory's port
-      else
-      {
-         // a socket the library made itself: an outgoing TCP connection (the harness's listener will accept its other end) or the broken stand-in pair
-         Conn & c = W->cs[W->nextCn]; c.cn = W->nextCn++; c.srvFd = fd; W->fd2cn[fd] = c.cn;
-         const IPAddressAndPort local = GetSocketBindAddress(s);
-         struct sockaddr_storage sa; socklen_t sl = sizeof(sa); memset(&sa, 0, sizeof(sa));
-         const bool isUnix = ((getsockname(fd, (struct sockaddr *) &sa, &sl) == 0)&&(sa.ss_family == AF_UNIX));
-         if (isUnix) c.fake = true;
-         else {c.tcp = true; c.localPort = local.GetPort(); if (GetAsyncConnectDestination().GetPort() == W->upPort) {c.expectPeer = true; W->pendingTcp++;}}   // only a connection to the listener ever arrives
-      }
+      W->cs[it->second].awaitingIo = false;    // a socket pair the harness made (AddSock, CreateDefaultSocket): already has its unique number
+      return AbstractReflectSession::CreateDataIO(s0);
+   }
+   // a socket the library made or accepted
+   struct sockaddr_storage sa; socklen_t sl = sizeof(sa); memset(&sa, 0, sizeof(sa));
+   const bool isUnix = ((getsockname(s0.GetFileDescriptor(), (struct sockaddr *) &sa, &sl) == 0)&&(sa.ss_family == AF_UNIX));
+   const uint16 localPort = isUnix ? 0 : GetSocketBindAddress(s0).GetPort();
+   const ConstSocketRef s = Uniq(s0);
+   const int fd = s.GetFileDescriptor();
+   if (W->acceptCn > 0) {Conn & c = W->cs[W->acceptCn]; c.srvFd = fd; W->fd2cn[fd] = c.cn; W->acceptCn = 0;}   // the connection a peer made to the factory's port
+   else
+   {
+      // an outgoing TCP connection (the harness's listener will accept its other end) or the broken stand-in socket pair
+      Conn & c = W->cs[W->nextCn]; c.cn = W->nextCn++; c.srvFd = fd; W->fd2cn[fd] = c.cn;
+      if (isUnix) c.fake = true;
+      else {c.tcp = true; c.localPort = localPort; if (GetAsyncConnectDestination().GetPort() == W->upPort) {c.expectPeer = true; W->pendingTcp++;}}   // only a connection to the listener ever arrives
    }
    return AbstractReflectSession::CreateDataIO(s);
 }
@@ -378,7 +396,17 @@ static void EnsureTargets()
       W->downSock = GetConstSocketRefFromPool(fd);
    }
 }
-static IPAddressAndPort Dest(const std::string & d) {EnsureTargets(); return IPAddressAndPort(localhostIP, (d == "up") ? W->upPort : W->downPort);}
+// "hole" (directed case only): a listener whose accept queue is full: a connect to it stays in progress (the SYN is dropped and retransmitted for minutes)
+static void EnsureHole()
+{
+   if (W->holeSock()) return;
+   const int fd = socket(AF_INET6, SOCK_STREAM, 0); struct sockaddr_in6 sa; memset(&sa, 0, sizeof(sa)); sa.sin6_family = AF_INET6; sa.sin6_addr = in6addr_loopback;
+   if ((fd < 0)||(bind(fd, (struct sockaddr *) &sa, sizeof(sa)) != 0)||(listen(fd, 0) != 0)) {fprintf(stderr, "cannot make the hole\n"); exit(10);}
+   socklen_t sl = sizeof(sa); (void) getsockname(fd, (struct sockaddr *) &sa, &sl); W->holePort = ntohs(sa.sin6_port); W->holeSock = GetConstSocketRefFromPool(fd);
+   for (int i=0; i<4; i++) {bool rdy = false; ConstSocketRef c = ConnectAsync(IPAddressAndPort(localhostIP, W->holePort), rdy); W->holeFill.push_back(c);}
+   usleep(20000);
+}
+static IPAddressAndPort Dest(const std::string & d) {EnsureTargets(); if (d == "hole") {EnsureHole(); return IPAddressAndPort(localhostIP, W->holePort);} return IPAddressAndPort(localhostIP, (d == "up") ? W->upPort : W->downPort);}
 
 // executes the driver step st; returns {"r":result,"ev":[callbacks],"snap":{...}}
 static J Exec(const J & st)
@@ -398,6 +426,7 @@ static J Exec(const J & st)
       if (a == "AddSock")
       {
          ConstSocketRef x, y; if (CreateConnectedSocketPair(x, y, false).IsError()) {fprintf(stderr, "socketpair failed\n"); exit(10);}
+         x = Uniq(x);
          Conn & c = W->cs[W->nextCn]; c.cn = W->nextCn++; c.peer = y; c.havePeer = true; c.srvFd = x.GetFileDescriptor(); c.awaitingIo = true; W->fd2cn[c.srvFd] = c.cn;
          ret = W->srv->AddNewSession(ref, x);
       }
@@ -593,6 +622,19 @@ static int Random(int argc, char ** argv)
          std::vector<int> live, att; for (int id=1; id<=N; id++) {LSession * p = w.Live(id); if (p) {live.push_back(id); if (p->IsAttachedToServer()) att.push_back(id);}}
          std::vector<int> open; for (int c=1; c<w.nextCn; c++) if ((w.cs[c].havePeer)&&(!w.cs[c].peerClosed)&&(w.EofState(w.cs[c]) == 0)) open.push_back(c);
          J st; bool have = false;
+         if ((w.arm.on)&&(rng.Chance(40)))
+         {
+            LSession * ap = w.Live(w.arm.s);
+            if ((ap)&&(ap->IsAttachedToServer()))
+            {
+               const int afd = ap->GetSessionReadSelectSocket().GetFileDescriptor(); int acn = 0;
+               if (afd >= 0) {std::map<int, int>::iterator it = w.fd2cn.find(afd); if (it != w.fd2cn.end()) acn = it->second;}
+               if (w.arm.cb == "Pulse") {st = Step("Wp"); st.set("s", J::Int(w.arm.s)); have = true;}
+               else if (w.arm.cb == "Det") {st = Step("Ext"); st.set("op", J::Str("End")).set("t", J::Int(w.arm.s)); have = true;}
+               else if ((w.arm.cb == "CCC")&&(acn > 0)&&(w.cs[acn].havePeer)&&(!w.cs[acn].peerClosed)) {st = Step("Close"); st.set("c", J::Int(acn)); have = true;}
+               else if (w.arm.cb == "CCC") {st = Step("Ext"); st.set("op", J::Str("Disc")).set("t", J::Int(w.arm.s)); have = true;}
+            }
+         }
          for (int tries=0; (tries<20)&&(!have); tries++)
          {
             const int pick = rng.Below(100);
@@ -616,7 +658,15 @@ static int Random(int argc, char ** argv)
             else if (pick < 62)
             {
                if (w.arm.on) continue;
-               st = Step("Arm"); st.set("s", J::Int(1+rng.Below(N))).set("cb", J::Str(cbs[rng.Below(5)])).set("act", J::Str(acts[rng.Below(10)])).set("t", J::Int(rng.Below(N+1))); have = true;
+               // mostly an armed action that has a chance to run: AttachedToServer() of the session that will be added next, another callback of an attached session
+               int as = 1+rng.Below(N); const char * cb = cbs[rng.Below(5)];
+               if (rng.Chance(75))
+               {
+                  if ((w.nextId <= N)&&((att.empty())||(rng.Chance(35)))) {as = w.nextId; cb = "Att";}
+                  else if (!att.empty()) {as = att[rng.Below((int) att.size())]; cb = cbs[1+rng.Below(4)];}
+               }
+               int at = rng.Below(N+1); if ((rng.Chance(50))&&(!att.empty())) at = rng.Chance(50) ? as : att[rng.Below((int) att.size())];
+               st = Step("Arm"); st.set("s", J::Int(as)).set("cb", J::Str(cb)).set("act", J::Str(acts[rng.Below(10)])).set("t", J::Int(at)); have = true;
             }
             else if (pick < 66) {st = Step("Clock"); have = true;}
             else if (pick < 70) {if (att.empty()) continue; st = Step("Wp"); st.set("s", J::Int(att[rng.Below((int) att.size())])); have = true;}
